@@ -457,7 +457,12 @@ class HTTPConnectionPool(ConnectionPool, RequestMethods):
         self.num_requests += 1
 
         timeout_obj = self._get_timeout(timeout)
-        timeout_obj.start_connect()
+        if isinstance(timeout, Timeout) and timeout._start_connect is not None:
+            # urlopen() started the clock of this attempt when it set up the
+            # CONNECT tunnel; _get_timeout() hands out a copy without it.
+            timeout_obj._start_connect = timeout._start_connect
+        else:
+            timeout_obj.start_connect()
         conn.timeout = Timeout.resolve_default_timeout(timeout_obj.connect_timeout)
 
         try:
@@ -794,6 +799,9 @@ class HTTPConnectionPool(ConnectionPool, RequestMethods):
 
             # Is this a closed/new connection that requires CONNECT tunnelling?
             if self.proxy is not None and http_tunnel_required and conn.is_closed:
+                # Connecting to the proxy and establishing the tunnel is the
+                # connect phase of this attempt: it counts towards ``total``.
+                timeout_obj.start_connect()
                 try:
                     self._prepare_proxy(conn)
                 except (BaseSSLError, OSError, SocketTimeout) as e:
